@@ -11,21 +11,9 @@ pub mod vk;
 pub mod model;
 pub mod spec_prims;
 pub mod spec;
+pub mod spec_steps;
 
-/// Declares harnesses and the table used by the native replay.
-macro_rules! harnesses {
-    ($( $(#[$m:meta])* fn $name:ident [unwind = $u:literal] $body:block )*) => {
-        $(
-            $(#[$m])*
-            #[cfg_attr(kani, kani::proof)]
-            #[cfg_attr(kani, kani::unwind($u))]
-            #[cfg_attr(kani, kani::stub(zeroize::optimization_barrier, crate::verif_kani::vk::noop_barrier))]
-            #[cfg_attr(kani, kani::stub(<[u8]>::copy_from_slice, crate::verif_kani::vk::elementwise_copy))]
-            pub fn $name() $body
-        )*
-        pub const TABLE: &[(&str, fn())] = &[ $( (stringify!($name), $name as fn()) ),* ];
-    };
-}
+include!("../common/hmacro.rs");
 pub(crate) use harnesses;
 
 pub mod h_lemmas;
@@ -33,12 +21,15 @@ pub mod h_c03;
 pub mod h_decoders;
 pub mod h_inputs;
 pub mod h_steps;
+pub mod w_stubs;
+pub mod h_wire;
 
 /// all harnesses reachable from this module (the child modules in opaque.rs / envelope.rs /
 /// tripledh.rs register theirs through `child_tables`)
-pub fn tables() -> [&'static [(&'static str, fn())]; 8] {
+pub fn tables() -> [&'static [(&'static str, fn())]; 9] {
     [
         h_lemmas::TABLE,
+        h_wire::TABLE,
         h_steps::TABLE,
         h_inputs::TABLE,
         h_c03::TABLE,
